@@ -1,0 +1,5 @@
+//go:build !verif
+
+package proxy
+
+func vhook(string, ...interface{}) {}
